@@ -358,6 +358,24 @@ func mergeProps(a, b []string) []string {
 func (f *frame) havocLoc(n *node, l modLoc) {
 	x := f.x
 	p := l.ptr
+	if l.isMap {
+		m := p.T.Underlying().(*types.Map)
+		ks := x.mapKeySort(m.Key())
+		base := mapHeapKey(p.T)
+		set := func(key, sort string) {
+			arr := x.hget(n.heap, key, sort, ks)
+			fresh := x.g.Const("mod."+key, arrSort(ks, sort))
+			x.hset(n.heap, key, sort, ks, x.g.Fresh(heapArraySort(sort, ks), "(store "+arr+" "+p.C[0]+" "+fresh+")"), p.C[0])
+			for _, ep := range f.activeEpochs(n) {
+				ep.written[key] = true
+			}
+		}
+		set(base+".dom", SortBool)
+		for _, c := range x.comps(m.Elem()) {
+			set(base+".val"+c.suffix, c.sort)
+		}
+		return
+	}
 	key := x.ptrKey(p)
 	pt := p.T.Underlying().(*types.Pointer).Elem()
 	eps := f.activeEpochs(n)
@@ -548,6 +566,16 @@ func (f *frame) intrinsic(n *node, callee *ssa.Function, args []Val) (Val, bool)
 		inner := g.PopScope(implies("(select (select "+dom+" "+m.C[0]+") "+kv+")", body))
 		t := g.Fresh(SortBool, "(forall (("+kv+" "+ks+")) "+inner+")")
 		return Val{T: types.Typ[types.Bool], C: []string{t}}, true
+	case name == "vcModMap":
+		if x.modCollect == nil {
+			return Val{T: callee.Signature.Results()}, true
+		}
+		a := args[0]
+		if len(a.Bind) == 1 {
+			a = a.Bind[0]
+		}
+		*x.modCollect = append(*x.modCollect, modLoc{ptr: a, isMap: true})
+		return Val{T: callee.Signature.Results()}, true
 	case name == "vcMod" || name == "vcModElems":
 		if x.modCollect == nil {
 			return Val{T: callee.Signature.Results()}, true
@@ -610,6 +638,49 @@ func (f *frame) invokeIface(n *node, recv Val, m *types.Func, args []Val, in *ss
 		it = named.Obj().Name()
 	} else if named, ok := recv.T.(*types.Named); ok {
 		it = named.Obj().Name()
+	}
+	if c := x.w.Iface[it+"."+m.Name()]; c != nil && c.Pure {
+		// a pure observer: every result component is an uninterpreted function of the
+		// receiver and the arguments (assumption: implementations are deterministic and the
+		// observed object is not modified between the calls that are compared)
+		var terms, sorts []string
+		terms = append(terms, recv.C[0], recv.C[1])
+		sorts = append(sorts, SortTag, SortRef)
+		for _, a := range args {
+			switch {
+			case isString(a.T):
+				terms = append(terms, a.C...)
+				sorts = append(sorts, arrSort(SortBV64, SortBV8), SortBV64, SortBV64)
+			default:
+				cs := x.comps(a.T)
+				if _, ok := a.T.Underlying().(*types.Basic); !ok || len(cs) != 1 {
+					unsup("pure interface method %s.%s: argument of type %s", it, m.Name(), a.T)
+				}
+				terms = append(terms, a.C[0])
+				sorts = append(sorts, cs[0].sort)
+			}
+		}
+		x.note("interface call %s.%s is a pure observer (uninterpreted function of receiver and arguments)", it, m.Name())
+		mk := func(t types.Type, k int) Val {
+			v := Val{T: t}
+			for ci, cc := range x.comps(t) {
+				fn := x.g.Fun(fmt.Sprintf("iface:%s.%s#%d.%d", it, m.Name(), k, ci), sorts, cc.sort)
+				v.C = append(v.C, x.g.Fresh(cc.sort, "("+fn+" "+strings.Join(terms, " ")+")"))
+			}
+			if !x.g.InQuant() {
+				x.assumeWellFormed(v, "true")
+			}
+			return v
+		}
+		sig := m.Type().(*types.Signature)
+		if sig.Results().Len() == 1 {
+			return mk(sig.Results().At(0).Type(), 0)
+		}
+		res := Val{T: sig.Results()}
+		for k := 0; k < sig.Results().Len(); k++ {
+			res.Sub = append(res.Sub, mk(sig.Results().At(k).Type(), k))
+		}
+		return res
 	}
 	if c := x.w.Iface[it+"."+m.Name()]; c != nil && !f.spec && !x.inSpec() {
 		pre := n.heap.clone()
